@@ -136,7 +136,7 @@ def _(c):
     c.ensure('code', val.eq(list(t.tmp_code), list(h)[k + 2:][::-1]))
     c.ensure('valid', t.lsh_code_valid is True)
 
-@obligation(P, 'tlsh.distance/laws-every-pair', cls='L', cases={'b': [48], 'k': [1, 3]}, funcs=['crysp.tlsh.distance', 'crysp.tlsh.TLSH.from_hash'], timeout=300,
+@obligation(P, 'tlsh.distance/laws-every-pair', cls='L', tiers=('thorough',), cases={'b': [48], 'k': [1, 3]}, funcs=['crysp.tlsh.distance', 'crysp.tlsh.TLSH.from_hash'], timeout=900,
             note='EVERY pair of 48-bucket digests (symbolic), whole function: the distance is a non-negative integer, symmetric, and zero on identical digests; the larger layouts are decided by the two obligations below')
 def _(c):
     b, k = c.case('b'), c.case('k'); n = k + 2 + b // 4
